@@ -412,7 +412,48 @@ func ruleN1(p *Prog, r *Report) {
 			}
 		})
 	}
-	r.Floor(R, "detach sites in Array", 2, n)
+	// bulk removal: a method that pops every element off the root must forget every tracked child index
+	for _, f := range p.TopFuncs() {
+		if recvName(f) != "Array" || !isExportedAPI(f) || len(f.Params) == 0 {
+			continue
+		}
+		var pop ssa.Instruction
+		eachInstr(f, func(in ssa.Instruction) {
+			if c, ok := p.isIfaceMethodCall(in, "ArraySlab", "PopIterate"); ok && c != nil {
+				pop = in
+			}
+		})
+		if pop == nil {
+			continue
+		}
+		n++
+		recv := f.Params[0]
+		isReset := func(x ssa.Instruction) bool {
+			if cc, ok := isBuiltinCall(x, "clear"); ok && len(cc.Args) == 1 {
+				if lf, ok := asLoadedField(cc.Args[0]); ok && lf.is("Array", "mutableElementIndex") && sameValue(lf.Base, recv) {
+					return true
+				}
+			}
+			if fw, ok := fieldWriteOf(x); ok && fw.Kind == "assign" && fw.Ref.is("Array", "mutableElementIndex") && sameValue(fw.Ref.Base, recv) {
+				v := canon(fw.Val)
+				if isNilConst(v) {
+					return true
+				}
+				if _, ok := v.(*ssa.MakeMap); ok {
+					return true
+				}
+			}
+			return false
+		}
+		bad := successReturnAvoiding(f, pop, isReset)
+		cons := "index-reset:" + p.Name(f)
+		if bad == nil {
+			r.Ok(R, cons, p.InstrPos(pop), "every success path after the bulk pop resets mutableElementIndex")
+		} else {
+			r.Bad(R, cons, p.InstrPos(bad), "all elements are popped but mutableElementIndex keeps the entries of the former children: the next Insert/Append fails while shifting a stale index, and a popped child's handle still finds a slot in the emptied array")
+		}
+	}
+	r.Floor(R, "detach sites in Array", 3, n)
 }
 
 // parentUpdaterClosures: closures passed to setParentUpdater.
